@@ -729,6 +729,10 @@ def run(ctx):
     check_lifetime(ctx, 'C13.LIFETIME')
     # ---------------------------------------------------------------- the address generator
     fg = p.get_function('base_wallet.BaseWallet.address_generator')
+    from ..evalr import _is_generator
+    if not _is_generator(fg.node):
+        _check_object_generator(ctx, fg)
+        return
     with ctx.obligation('C13.GEN', 'BaseWallet.address_generator', None, fg.where) as ob:
         loops_ = [n for n in fg.node.body if isinstance(n, ast.While)]
         if len(loops_) != 1:
@@ -770,6 +774,74 @@ def run(ctx):
         # default address function
         res, env1, _ = ev.eval_fragment('base_wallet.BaseWallet.address_generator', pre, {fg.params[0]: w, fg.params[1]: node, fg.params[2]: T.NONE})
         ok = any(T.tag(v_) == 'bound' and v_[2].endswith('BaseWallet.p2wpkh_address') for v_ in env1.values())
+        ob.require(ok, 'the default address function is p2wpkh_address', fg.where)
+
+
+def _check_object_generator(ctx, fg):
+    """address_generator written as an iterator object of a package class (not a generator function): the iterator protocol
+    is evaluated on the object the function returns - next() yields (str(child), addr_fnc(child)) for child = node.ckd(0),
+    node.ckd(1), ..., send(n) moves n positions ahead (or 1), and iter() hands back the iterator itself with its position
+    (what a generator does; an __iter__ that builds a fresh object restarts the sequence for every for-loop, islice, zip)."""
+    p = ctx.p
+    with ctx.obligation('C13.GEN', 'BaseWallet.address_generator', None, fg.where) as ob:
+        summ = dict(X.DEFAULT_SUMMARIES)
+        for q in ('bip32.PubKeyNode.ckd', 'bip32.PrvKeyNode.ckd'):
+            summ[q] = lambda ev_, fi, env, facts: (C17._ckd(env[fi.params[0]], env[fi.params[1]]), facts)
+        ev = Evaluator(p, 'ecdsa', summaries=summ)
+        w = S('wallet', cls=PKG + '.base_wallet.BaseWallet')
+        node = S('node', cls=PRV)
+        addr = S('addr_fnc', callable=True)
+        v, _ = ev.call_function('base_wallet.BaseWallet.address_generator', [w, node, addr])
+        objs = distinct_normal_leaves(v)
+        if len(objs) != 1 or T.tag(objs[0]) != 'obj' or objs[0][1] not in p.classes:
+            ob.undecided('address_generator is neither a generator function nor does it return one object of a package class: %s'
+                         % T.show(v, maxdepth=3), fg.where)
+            return
+        G = objs[0]
+        ci = p.classes[G[1]]
+        nxt, itr, snd = ci.find_method('__next__'), ci.find_method('__iter__'), ci.find_method('send')
+        if nxt is None or itr is None:
+            ob.require(False, 'the object address_generator returns (%s) is not an iterator: __next__ / __iter__ missing' % ci.name, fg.where)
+            return
+        key = lambda fi: fi.qual[len(PKG) + 1:]
+
+        def step_ok(val, idx, what):
+            child = C17._ckd(node, idx)
+            def is_child(x):
+                if not (T.tag(x) == 'sym' and x[1] == 'CKD'):
+                    return False
+                of = T.sym_meta(x, 'of')
+                return of is not None and of[0] == node and T.hoist(of[1]) == T.hoist(idx)
+            for leaf in distinct_normal_leaves(val) or [val]:
+                ok = T.tag(leaf) == 'tuple' and len(leaf[1]) == 2 and T.is_op(leaf[1][1], 'APPLY') and leaf[1][1][2] == addr \
+                    and len(leaf[1][1]) == 4 and is_child(leaf[1][1][3]) and T.contains(leaf[1][0], is_child) \
+                    and not T.contains(leaf[1][0], lambda x: T.tag(x) == 'sym' and x[1] == 'CKD' and not is_child(x))
+                ob.require(ok, '%s yields (str(child), addr_fnc(child)) for child = node.ckd(%s)' % (what, T.show(idx)), nxt.where,
+                           expected='(str(ckd(%s)), addr_fnc(ckd(%s)))' % (T.show(idx), T.show(idx)), found=T.show(leaf, maxdepth=5))
+        v0, G1 = call_on(ev, G, key(nxt))
+        step_ok(v0, T.const(0), 'the first next()')
+        v1, G2 = call_on(ev, G1, key(nxt))
+        step_ok(v1, T.const(1), 'the second next()')
+        v2, G3 = call_on(ev, G2, key(nxt))
+        step_ok(v2, T.const(2), 'the third next()')
+        if snd is not None:
+            sent = T.sym('sent', type=None)
+            prm = [q for q in snd.params[1:]]
+            vs, _ = call_on(ev, G2, key(snd), {prm[0]: sent} if prm else {})
+            step_ok(vs, T.add(T.const(1), T.phi(T.truth(sent), sent, T.const(1))), 'send(n) after two steps')
+        # iter() of an iterator is the iterator itself, position included
+        for lab, g, nextidx in (('a fresh generator', G, 0), ('a generator that has produced two addresses', G2, 2)):
+            it, _ = call_on(ev, g, key(itr))
+            for leaf in distinct_normal_leaves(it) or [it]:
+                if T.tag(leaf) != 'obj':
+                    ob.require(False, 'iter() of %s is an iterator object' % lab, itr.where, found=T.show(leaf, maxdepth=3))
+                    continue
+                vi, _ = call_on(ev, leaf, key(nxt))
+                step_ok(vi, T.const(nextidx), 'next(iter(g)) on %s continues where g stands (iter() must not restart or fork the position):' % lab)
+        # the default address function
+        vd, _ = ev.call_function('base_wallet.BaseWallet.address_generator', [w, node, T.NONE])
+        ok = any(T.tag(x) == 'bound' and x[2].endswith('BaseWallet.p2wpkh_address') for o_ in distinct_normal_leaves(vd) if T.tag(o_) == 'obj'
+                 for x in T.obj_fields(o_).values())
         ob.require(ok, 'the default address function is p2wpkh_address', fg.where)
 
 
